@@ -9,6 +9,15 @@ pub fn families() -> Vec<&'static dyn Family> {
         &rsim::pubsub::PS_PARTIAL,
         &rsim::pubsub::PS_SHUTDOWN,
         &rsim::pubsub::PS_FAIL_RANDOM,
+        &rsim::reqrep::RR_CLEAN,
+        &rsim::reqrep::RR_WAKE,
+        &rsim::reqrep::RR_PARTIAL,
+        &rsim::reqrep::RR_REPLIERS,
+        &rsim::reqrep::RR_SHUTDOWN,
+        &rsim::reqrep::RR_FAIL_RANDOM,
+        &rsim::reqrep::RR_FRAMES,
+        &rsim::enumfail::PS_FAIL_ENUM,
+        &rsim::enumfail::RR_FAIL_ENUM,
     ]
 }
 
@@ -46,10 +55,83 @@ pub fn plan(property: &str) -> Option<CheckPlan> {
             stubbed: R_STUB.to_vec(),
             items: vec![PlanItem { family: &rsim::pubsub::PS_CLEAN, quick: 200_000, thorough: 5_000_000 }],
         }),
+        "C02" => Some(CheckPlan {
+            property: "C02",
+            level: "exploration",
+            rule: "scripts (requestor/replier registrations, requests incl. forged routing tags, scripted replies in/out of order and ill-tagged, gate toggles) generated from VERIF_SEED; non-trivial = >= 1 request accepted, >= 1 reply delivered and at least one Pending outcome fired; distinct = distinct script bodies among those",
+            assumptions: vec![
+                "mock sinks model FramedWrite<SendStream>",
+                "a router that parks in a poll where no sink was Pending has drained its registration channel",
+            ],
+            real: R_REAL.to_vec(),
+            stubbed: R_STUB.to_vec(),
+            items: vec![PlanItem { family: &rsim::reqrep::RR_CLEAN, quick: 200_000, thorough: 5_000_000 }],
+        }),
+        "C09" => Some(CheckPlan {
+            property: "C09",
+            level: "exploration",
+            rule: "every script runs under the wake-driven executor (the router is polled only when its waker fired) with a per-poll work budget; families: pub/sub and request/reply traffic plus partial topologies (no peers, one side only, side departed); non-trivial by the family's rule; distinct = distinct script bodies",
+            assumptions: vec!["mock sinks/streams wake the stored waker exactly when their scripted state changes (gate opens, item fed, stream ends)"],
+            real: R_REAL.to_vec(),
+            stubbed: R_STUB.to_vec(),
+            items: vec![
+                PlanItem { family: &rsim::pubsub::PS_WAKE, quick: 100_000, thorough: 2_500_000 },
+                PlanItem { family: &rsim::pubsub::PS_PARTIAL, quick: 50_000, thorough: 1_500_000 },
+                PlanItem { family: &rsim::reqrep::RR_WAKE, quick: 100_000, thorough: 2_500_000 },
+                PlanItem { family: &rsim::reqrep::RR_PARTIAL, quick: 50_000, thorough: 1_500_000 },
+            ],
+        }),
+        "C10" => Some(CheckPlan {
+            property: "C10",
+            level: "exploration",
+            rule: "1-5 replier registrations and departures interleaved with requests, replies and gate toggles (rejected repliers' sinks included); non-trivial by the request/reply family rule; distinct = distinct script bodies",
+            assumptions: vec!["a replier counts as still bound until a parked poll has happened after its stream end"],
+            real: R_REAL.to_vec(),
+            stubbed: R_STUB.to_vec(),
+            items: vec![PlanItem { family: &rsim::reqrep::RR_REPLIERS, quick: 150_000, thorough: 4_000_000 }],
+        }),
+        "C16" => Some(CheckPlan {
+            property: "C16",
+            level: "exploration",
+            rule: "pub/sub and request/reply scripts with the registration channel closed (or its sender dropped) at a seeded step; afterwards every gate opens; non-trivial by the family rule; distinct = distinct script bodies",
+            assumptions: vec!["closing the sender returned by Topic::pair() is what Server::shutdown does through close_channel"],
+            real: R_REAL.to_vec(),
+            stubbed: R_STUB.to_vec(),
+            items: vec![
+                PlanItem { family: &rsim::pubsub::PS_SHUTDOWN, quick: 100_000, thorough: 2_500_000 },
+                PlanItem { family: &rsim::reqrep::RR_SHUTDOWN, quick: 50_000, thorough: 1_500_000 },
+            ],
+        }),
+        "C08" => Some(CheckPlan {
+            property: "C08",
+            level: "fault_enumeration",
+            rule: "run index i executes fault point (i mod #points) of the listed placement space under a schedule drawn from VERIF_SEED; plus random one- and two-peer failures; non-trivial = >= 2 messages/requests accepted with a fault or Pending outcome fired; distinct = distinct script bodies",
+            assumptions: vec![
+                "a peer failure is a sink operation returning Err from a scripted point on (and forever after), or a stream yielding Err / ending",
+                "mock sinks model FramedWrite<SendStream>",
+            ],
+            real: R_REAL.to_vec(),
+            stubbed: R_STUB.to_vec(),
+            items: vec![
+                PlanItem { family: &rsim::enumfail::PS_FAIL_ENUM, quick: 16_000, thorough: 640_000 },
+                PlanItem { family: &rsim::enumfail::RR_FAIL_ENUM, quick: 15_000, thorough: 600_000 },
+                PlanItem { family: &rsim::pubsub::PS_FAIL_RANDOM, quick: 60_000, thorough: 2_400_000 },
+                PlanItem { family: &rsim::reqrep::RR_FAIL_RANDOM, quick: 60_000, thorough: 2_400_000 },
+            ],
+        }),
+        "C11" => Some(CheckPlan {
+            property: "C11",
+            level: "exploration",
+            rule: "R: request/reply scripts in which requestors and repliers also send frames of every other kind mid-stream (Ok, BatchMessage, Error, Register*, a request at the frame limit); N: raw peers against the simulated server; non-trivial by the family rule; distinct = distinct script bodies",
+            assumptions: vec!["R part: frames reach the router already decoded (the codec is exercised by C05/C06 and by the N part)"],
+            real: R_REAL.to_vec(),
+            stubbed: R_STUB.to_vec(),
+            items: vec![PlanItem { family: &rsim::reqrep::RR_FRAMES, quick: 100_000, thorough: 3_000_000 }],
+        }),
         _ => None,
     }
 }
 
 pub fn properties() -> Vec<&'static str> {
-    vec!["C01"]
+    vec!["C01", "C02", "C08", "C09", "C10", "C11", "C16"]
 }
